@@ -30,6 +30,28 @@ Theorem C18_no_report_whole : forall input imports out,
   \/ exists out', read_imports false input = ROk imports out' ENUL.
 Proof. exact no_report_whole. Qed.
 Print Assumptions C18_no_report_whole.
+
+(* the flag decides what happens to a syntax error and nothing else: a result without a syntax
+   error (nil, or the NUL error) is the same imports, bytes and error in both modes *)
+Theorem C18_report_flag_only_on_syntax_error : forall input imports out e,
+  read_imports true input = ROk imports out e -> e <> ESyntax ->
+  read_imports false input = ROk imports out e.
+Proof. exact report_flag_only_on_syntax_error. Qed.
+Print Assumptions C18_report_flag_only_on_syntax_error.
+
+(* when syntax errors are not requested none is returned, whatever the bytes: the error is nil
+   or the NUL error (any kind of syntax error -- newline or end of input in a path literal,
+   unterminated comment, stray byte, bad keyword -- is the one value ESyntax in the model) *)
+Theorem C18_no_report_no_syntax_error : forall input imports out e,
+  read_imports false input = ROk imports out e -> e <> ESyntax.
+Proof. exact no_report_no_syntax_error. Qed.
+Print Assumptions C18_no_report_no_syntax_error.
+
+(* both modes find the same imports *)
+Theorem C18_report_flag_same_imports : forall input i1 o1 e1 i0 o0 e0,
+  read_imports true input = ROk i1 o1 e1 -> read_imports false input = ROk i0 o0 e0 -> i1 = i0.
+Proof. exact report_flag_same_imports. Qed.
+Print Assumptions C18_report_flag_same_imports.
 From GI Require Import Imports.ReadGrammar Imports.ReadComplete.
 
 (* completeness on the grammar G of import sections (ReadGrammar.v): optional BOM; trivia =
@@ -97,3 +119,69 @@ Theorem C18_scan_bom : forall tags f l1 l2, has_prefix bom (e_data f) = false ->
   /\ scan_files tags (l1 ++ with_bom f :: l2) = scan_files tags (l1 ++ f :: l2).
 Proof. exact scan_bom. Qed.
 Print Assumptions C18_scan_bom.
+From Coq Require Import Arith ZArith.
+From GI Require Import Lib.GoSem Lib.GoSemIO Imports.ReadSrcLib Gen.ImportsReadSrc Imports.ReadSrcFacts Imports.ReadSrcComplete.
+
+(* ---- imports/read.go AS TRANSLATED by harness/go2coq on every run (Gen/ImportsReadSrc.v): the
+   io.Reader is the list of the bytes it delivers, *imports is [Some l] (or None for nil), an
+   error is nil or the value of errSyntax / errNUL ([err_of]); [abs s] is the importReader of
+   the source as a function of the model's state *)
+
+(* the methods of the reader compute what the model's functions compute, for every state of
+   the reader and every bound fuel >= F on the iterations of each loop, where F is a bound
+   within which the model's run from that state neither reaches the "looping" panic nor runs
+   out of its own fuel (for ReadImports such an F is given below, so this is not a restriction) *)
+Theorem C18_source_methods :
+  (forall c, src_isIdent c = Ok (is_ident c))
+  /\ (forall s, src_importReader_syntaxError (abs s) = Ok (abs (syntax_error s)))
+  /\ (forall s, src_importReader_readByte (abs s) = Ok (abs (snd (read_byte s)), fst (read_byte s)))
+  /\ (forall F fuel skip s, F <= fuel -> fail (snd (peek_byte F skip s)) = FNone ->
+        src_importReader_peekByte fuel (abs s) skip = Ok (abs (snd (peek_byte F skip s)), fst (peek_byte F skip s)))
+  /\ (forall F fuel skip s, F <= fuel -> fail (snd (next_byte F skip s)) = FNone ->
+        src_importReader_nextByte fuel (abs s) skip = Ok (abs (snd (next_byte F skip s)), fst (next_byte F skip s)))
+  /\ (forall F fuel kw s, F <= fuel -> fail (read_keyword F kw s) = FNone ->
+        src_importReader_readKeyword fuel (abs s) kw = Ok (abs (read_keyword F kw s)))
+  /\ (forall F fuel s, F <= fuel -> fail (read_ident F s) = FNone ->
+        src_importReader_readIdent fuel (abs s) = Ok (abs (read_ident F s)))
+  /\ (forall F fuel keep l0 s, F <= fuel -> pkwf s -> fail (read_string F true s) = FNone ->
+        src_importReader_readString fuel (abs s) (absI keep l0 s) =
+        Ok (abs (read_string F true s), absI keep l0 (read_string F true s)))
+  /\ (forall F fuel keep l0 s, F <= fuel -> pkwf s -> fail (read_import F s) = FNone ->
+        src_importReader_readImport fuel (abs s) (absI keep l0 s) =
+        Ok (abs (read_import F s), absI keep l0 (read_import F s)))
+  /\ (forall data, src_newImportReader data = Ok (abs (init_st (strip_bom data)))).
+Proof. exact src_methods_eq. Qed.
+Print Assumptions C18_source_methods.
+
+(* ReadImports as translated returns Ok of exactly what the model returns, for every input, both
+   values of reportSyntaxError, every *imports (what was in it stays in front; nil stays nil)
+   and every bound fuel >= 2 * len(data) + 8 on the iterations of each loop *)
+Theorem C18_source_ReadImports_is_model : forall fuel data report o, 2 * length data + 8 <= fuel ->
+  exists found out e,
+    read_imports report data = ROk found out e /\
+    src_ReadImports fuel data report o = Ok (imports_after o found, out, err_of e).
+Proof. exact src_ReadImports_model. Qed.
+Print Assumptions C18_source_ReadImports_is_model.
+
+(* totality on the source: on arbitrary bytes the translated ReadImports returns -- no "import
+   reader looping" panic, no slice expression out of range, no nil dereference of *imports,
+   no loop beyond 2 * len(data) + 8 iterations *)
+Theorem C18_source_total : forall fuel data report o, 2 * length data + 8 <= fuel ->
+  exists o' out e, src_ReadImports fuel data report o = Ok (o', out, e).
+Proof. exact src_ReadImports_total. Qed.
+Print Assumptions C18_source_total.
+
+(* the bytes it returns are a prefix of the input, an optional leading byte-order mark aside *)
+Theorem C18_source_output_is_prefix : forall fuel data report o o' out e, 2 * length data + 8 <= fuel ->
+  src_ReadImports fuel data report o = Ok (o', out, e) ->
+  (exists tl, strip_bom data = out ++ tl) /\ (data = strip_bom data \/ data = bom ++ strip_bom data).
+Proof. exact src_ReadImports_prefix. Qed.
+Print Assumptions C18_source_output_is_prefix.
+
+(* completeness on the grammar G, directly on the translated ReadImports: the path literals in
+   order appended to *imports, the rendering of the section without the BOM, a nil error *)
+Theorem C18_source_complete : forall fuel report g rest o, wf_section g rest = true ->
+  2 * length (render g ++ rest) + 8 <= fuel ->
+  src_ReadImports fuel (render g ++ rest) report o = Ok (imports_after o (paths g), render_body g, ErrNil).
+Proof. exact src_ReadImports_complete. Qed.
+Print Assumptions C18_source_complete.
